@@ -21,7 +21,7 @@ from qv.runner import Acc, Report, pmap
 from qv.snapshot import digest
 
 PID = "C04"
-POLICY = dict(uniform_q=(0.3, 0.8), angular_q=None, normal_z=(-1.0, 1.0), product_limit=0, branch_calls=1)
+POLICY = dict(uniform_q=(0.3, 0.8), angular_q=None, normal_z=(-1.0, 0.6), product_limit=0, branch_calls=1)
 TOL = 1e-10
 
 
